@@ -144,6 +144,25 @@ def observe(case):
         # what Solver.setup does, minus the compiled integrator
         integ.compute_h_minimum()
         integ.fixed_h = True
+    if not case['fixed_h'] and case['idx'] % 3 == 0:
+        # an earlier life of the same integrator: the particles used to be
+        # finer (a quarter of their present smoothing length); what it
+        # proposed then must not influence what it proposes now
+        def refresh():
+            for pa in pas:
+                pa.get_carray('h').update_min_max()
+        for pa in pas:
+            pa.get('h', only_real_particles=False)[:] *= 0.25
+        refresh()
+        try:
+            integ.compute_time_step(case['dt'], case['cfl'])
+        except Exception:
+            pass
+        for pa in pas:
+            # (a power of two: restored bit for bit)
+            pa.get('h', only_real_particles=False)[:] *= 4.0
+        refresh()
+        info['earlier_life'] = True
     try:
         got = integ.compute_time_step(case['dt'], case['cfl'])
         info['exc'] = None
